@@ -18,7 +18,7 @@ Hypotheses that had to be added to the literal "decoder ok ⟹ vendor reader ok 
 `…_needs_length` / `…_refuted` theorems):
 * C021, C023: the announced data is present (`nr + rl * rc ≤ |b|`);
 * FF10, FF30: the string length byte does not exceed the bytes present;
-* FF11: every 26-byte record announces the documented following length 24 (the known, recorded defect);
+* FF11: none (the decoder advances by each record's "following data length", as the vendor reader does);
 * FF13: none.
 The `…_of_spec` forms need none of them: whenever BOTH sides read a payload they read the same.
 -/
@@ -399,27 +399,30 @@ section FF11
 open PyAirtouch.Model.At5.FF11
 open PyAirtouch.Spec.At5 (readAcAbility)
 
-/-- **AC ability.**  KNOWN, RECORDED DEFECT kept out by the hypothesis `hfl`: the decoder does not use the
-"following data length" byte (Byte4 of each record) to advance, it always advances by 26.  The statement is
-therefore made for payloads in which every 26-byte record announces the documented following length 24.  Under it
-the decoder's reading is the vendor reading, record by record, and all of the payload is consumed. -/
-theorem C05_g5_decode_agrees_FF11 (b : Bytes) (hfl : ∀ i, i < b.length / 26 → b[26 * i + 1]? = some 24)
+/-- **AC ability.**  For EVERY following length (the decoder advances by the "following data length" byte, Byte4 of
+each record, as the vendor reader does; formerly a recorded defect kept out by a hypothesis): whenever the decoder
+accepts a payload as an ability message, all of the payload is consumed, the vendor reader reads it too, and the
+decoder's reading is the vendor reading, record by record.  Every record's following length is at least the 24
+described bytes. -/
+theorem C05_g5_decode_agrees_FF11 (b : Bytes)
     (acs : List AcAbility) (rest : Bytes) (h : decode b b.length = .ok (.ability acs, rest)) :
     rest = [] ∧ ∃ ss, readAcAbility ([0xFF, 0x11] ++ b) = some ss ∧ RecordWise AgreeFF11 acs ss ∧
-      ∀ s ∈ ss, s.followingLength = 24 :=
-  SpecAgree5.decode_agrees_FF11 b hfl acs rest h
+      ∀ s ∈ ss, 24 ≤ s.followingLength :=
+  SpecAgree5.decode_agrees_FF11 b acs rest h
 
-/-- The same under the hypothesis in the vendor reading's terms: whenever the vendor reader reads the payload and
-every record's following length is the documented 24, the decoder's records are the vendor's. -/
+/-- The same in the vendor reading's terms: whenever the vendor reader reads the payload into `ss`, the decoder's
+records are those, whatever their following lengths. -/
 theorem C05_g5_decode_agrees_FF11_of_spec (b : Bytes) (acs : List AcAbility) (rest : Bytes) (ss : List Spec.At5.AcAbility)
-    (h : decode b b.length = .ok (.ability acs, rest)) (hs : readAcAbility ([0xFF, 0x11] ++ b) = some ss)
-    (hfl : ∀ s ∈ ss, s.followingLength = 24) : RecordWise AgreeFF11 acs ss ∧ rest = [] :=
-  SpecAgree5.decode_agrees_FF11_of_spec b acs rest ss h hs hfl
+    (h : decode b b.length = .ok (.ability acs, rest)) (hs : readAcAbility ([0xFF, 0x11] ++ b) = some ss) :
+    RecordWise AgreeFF11 acs ss ∧ rest = [] :=
+  SpecAgree5.decode_agrees_FF11_of_spec b acs rest ss h hs
 
-theorem C05_g5_decode_agrees_FF11_refuted :
-    (∃ a1 a2, decode refutedFF11 refutedFF11.length = .ok (.ability [a1, a2], [])) ∧
-    (∃ s, readAcAbility ([0xFF, 0x11] ++ refutedFF11) = some [s] ∧ s.followingLength = 50) :=
-  SpecAgree5.decode_agrees_FF11_refuted
+/-- the repaired defect, concretely: `ff11 00 32 <50 bytes>` is ONE AC ("UNIT") for the decoder and for the vendor
+reader (following length 50) -/
+theorem C05_g5_decode_FF11_long_record :
+    isOneAbilityNamed [0x55, 0x4E, 0x49, 0x54] (decode longFF11 longFF11.length) = true ∧
+    (∃ s, readAcAbility ([0xFF, 0x11] ++ longFF11) = some [s] ∧ s.followingLength = 50) :=
+  SpecAgree5.decode_FF11_long_record
 
 /-- what the decoder reads as a request (no byte: all ACs; one byte: that AC) is the vendor's request of the same
 meaning -/
@@ -437,16 +440,20 @@ def exFF11 : Bytes :=
   [0x00, 0x18, 0x55, 0x4E, 0x49, 0x54, 0, 0, 0, 0, 0, 0, 0, 0, 0, 0, 0, 0, 0x00, 0x04, 0x17, 0x1D, 0x10, 0x1F, 0x12, 0x1F]
 
 example : [0xFF, 0x11] ++ exFF11 = PyAirtouch.Spec.At5.exAcAbilityData := by decide
-example : ∃ acs, decode exFF11 exFF11.length = .ok (.ability acs, []) ∧ acs.map (·.ac_name) = [[0x55, 0x4E, 0x49, 0x54]] ∧
-    ∃ ss, readAcAbility ([0xFF, 0x11] ++ exFF11) = some ss ∧ RecordWise AgreeFF11 acs ss := by
-  refine ⟨_, by rfl, by rfl, ?_⟩
-  have hfl : ∀ i, i < exFF11.length / 26 → exFF11[26 * i + 1]? = some 24 := by
-    intro i hi
-    have h1 : exFF11.length / 26 = 1 := by decide
-    have : i = 0 := by omega
-    subst this; rfl
-  obtain ⟨_, ss, h1, h2, _⟩ := C05_g5_decode_agrees_FF11 exFF11 hfl _ [] (by rfl)
-  exact ⟨ss, h1, h2⟩
+example (acs : List AcAbility) (rest : Bytes) (h : decode exFF11 exFF11.length = .ok (.ability acs, rest)) :
+    ∃ ss, readAcAbility ([0xFF, 0x11] ++ exFF11) = some ss ∧ RecordWise AgreeFF11 acs ss :=
+  let ⟨_, ss, h1, h2, _⟩ := C05_g5_decode_agrees_FF11 exFF11 acs rest h
+  ⟨ss, h1, h2⟩
+-- the hypothesis is satisfiable: the decoder accepts the example as one AC named "UNIT"
+example : isOneAbilityNamed [0x55, 0x4E, 0x49, 0x54] (decode exFF11 exFF11.length) = true := by decide +kernel
+
+-- a longer record (following length 50: the 24 described bytes and 26 more): one AC for both sides, and they agree
+example (acs : List AcAbility) (rest : Bytes) (h : decode longFF11 longFF11.length = .ok (.ability acs, rest)) :
+    rest = [] ∧ ∃ ss, readAcAbility ([0xFF, 0x11] ++ longFF11) = some ss ∧ RecordWise AgreeFF11 acs ss :=
+  let ⟨h0, ss, h1, h2, _⟩ := C05_g5_decode_agrees_FF11 longFF11 acs rest h
+  ⟨h0, ss, h1, h2⟩
+example : (readAcAbility ([0xFF, 0x11] ++ longFF11)).map (·.map fun s => (s.ac, s.followingLength, s.name)) =
+    some [(0, 50, [0x55, 0x4E, 0x49, 0x54])] := by decide +kernel
 
 end FF11
 
